@@ -666,26 +666,37 @@ func ruleLimitOnlyAtTheEnd(c *Ctx, rule string) {
 		return
 	}
 	g := f.Graph()
-	var gates []Loc
-	for _, s := range []string{"engine.aggregateRows", "engine.sortColumns"} {
-		cs := f.Calls(f.Decl.Body, false, s)
-		if len(cs) == 0 {
+	stages := []string{"engine.aggregateRows", "engine.sortColumns"}
+	for _, s := range stages {
+		if len(f.Calls(f.Decl.Body, false, s)) == 0 {
 			c.Undecided(rule, f.Name+"|stages", "stage %s not found", s)
 			return
 		}
-		// the guard of a conditional stage: use the statement that contains the call (an enclosing if dominates what follows it)
-		l, _ := g.Locate(cs[len(cs)-1])
-		gates = append(gates, l)
 	}
 	n := 0
 	for _, s := range []string{"engine.limit", "engine.offset"} {
 		for _, call := range f.Calls(f.Decl.Body, false, s) {
 			n++
 			key := f.Name + "|" + s[7:] + "-after-aggregation#" + itoa(n)
-			// textual order is enough inside this straight-line pipeline: every aggregation/sort call site precedes it
+			cl, ok := g.Locate(call)
+			if !ok {
+				c.Undecided(rule, key, "call not located")
+				continue
+			}
+			// a path property: no path from the function's entry reaches the cut without having passed a call of
+			// each stage (however many copies of the pipeline's tail the function has)
 			late := true
-			for _, gl := range gates {
-				if g.Node(gl) != nil && g.Node(gl).Pos() > call.Pos() {
+			for _, st := range stages {
+				skipped, _ := g.Forward(nil, nil, func(nn ast.Node, at Loc) Verdict {
+					if at == cl {
+						return Hit
+					}
+					if g.containsCall(nn, st) != nil {
+						return Cut
+					}
+					return Go
+				}, nil)
+				if skipped {
 					late = false
 				}
 			}
@@ -889,6 +900,32 @@ func ruleRowFromRecordOnly(c *Ctx, rule string) {
 					if id, ok := y.(*ast.Ident); ok && derived[info.ObjectOf(id)] {
 						uses = true
 					}
+					return true
+				})
+			}
+			if !uses {
+				// control dependence: a value chosen by a test of something derived from the record
+				// (`switch strings.ToLower(cell) { case "t": v = true … }`) is derived from it too
+				ast.Inspect(f.Decl.Body, func(y ast.Node) bool {
+					var cond ast.Node
+					var scope ast.Node
+					switch z := y.(type) {
+					case *ast.IfStmt:
+						cond, scope = z.Cond, z
+					case *ast.SwitchStmt:
+						if z.Tag != nil {
+							cond, scope = z.Tag, z
+						}
+					}
+					if cond == nil || !(scope.Pos() <= as.Pos() && as.End() <= scope.End()) || (cond.Pos() <= as.Pos() && as.End() <= cond.End()) {
+						return true
+					}
+					ast.Inspect(cond, func(q ast.Node) bool {
+						if id, ok := q.(*ast.Ident); ok && derived[info.ObjectOf(id)] {
+							uses = true
+						}
+						return true
+					})
 					return true
 				})
 			}
